@@ -222,7 +222,10 @@ def build():
     add('plane.maskonly-mul-rescale-mul', ['C07', 'C17'], lambda shape, scale: _maskonly(lentil, shape, scale), lambda s: dict(shape=(10, 8), scale=2),
         alts=dict(shape=[K((9, 9))], scale=[K(1.5), K(0.5)]), invariant=lambda r: r[1])
     add('plane.fit_tilt', ['C04', 'C03'], lambda p: p.fit_tilt(), lambda s: dict(p=pupil(80)(s)),
-        alts=dict(p=[pupil(81), pupil(82, seg=True), pupil(83, fit=True), pupil(84, seg=True, fit=True)]))
+        alts=dict(p=[pupil(81), pupil(82, seg=True), pupil(83, fit=True), pupil(84, seg=True, fit=True), pupil(80, ps=4 * DX), pupil(80, ps=(DX, 3 * DX))]))
+    add('plane.rescale-then-fit-inplace', ['C10', 'C04', 'C17'], lambda p, scale: (lambda q: (q.fit_tilt(inplace=True), q)[1])(p.rescale(scale)),
+        lambda s: dict(p=pupil(85, shape=(12, 10))(s), scale=1.5),
+        alts=dict(p=[pupil(87, seg=True, shape=(12, 10)), pupil(88, fit=True, shape=(12, 10))], scale=[K(1), K(2)]))
     add('plane.fit_tilt-inplace-twice', ['C04', 'C03'], lambda p: (p.fit_tilt(inplace=True), p.fit_tilt(inplace=True), p)[2], lambda s: dict(p=pupil(82, seg=True)(s)),
         alts=dict(p=[pupil(81), pupil(84, seg=True, fit=True)]), writes=['p'], norefill=['p'])
     add('plane.rescale', ['C17'], lambda p, scale: p.rescale(scale), lambda s: dict(p=pupil(85, shape=(12, 10))(s), scale=1.5),
